@@ -55,7 +55,13 @@ def step (s : Unit) (line : String) : Unit × String :=
   if op == "ntables" then
     let ids := ((List.range 302).map (fun (i : Nat) => Int.ofNat i - 2)).filter fun id => (setTable EaselModel.Generated.Gencode.tables id).isSome
     (s, "ok ids=" ++ ",".intercalate (ids.map toString))
-  else if op == "read" then
+  else if op == "decode" then
+    match decodeDigicodon NT ((argInt? ws "d").getD 0) with
+    | some l => (s, s!"ok {hx l}")
+    | none => (s, "fault")
+  else if op == "alttable" then
+    (s, s!"ok {hx (strBytes (dumpAltCodeTable EaselModel.Generated.Gencode.tables))}")
+  else if op == "read" || op == "readm" then
     match setTable EaselModel.Generated.Gencode.tables 1 with
     | none => (s, "bad-op")
     | some g1 =>
@@ -74,6 +80,19 @@ def step (s : Unit) (line : String) : Unit × String :=
     match getTranslation NT AA g a b c, isInitiator NT g a b c with
     | some t, some i => (s, s!"ok aa={t} init={i}")
     | _, _ => (s, "fault")
+  else if op == "compare" then
+    let NT2 := if arg? ws "nt2" == some "rna" then NTR else NTD
+    match setTable EaselModel.Generated.Gencode.tables ((argInt? ws "id2").getD 1) with
+    | none => (s, "enotfound")
+    | some g2 =>
+      let g2 := match arg? ws "init2" with
+        | some "any" => setInitiatorAny AA g2
+        | some "aug" => setInitiatorOnlyAUG NT2 g2
+        | _ => g2
+      match compare NT.type AA.type NT2.type AA.type g g2 ((argNat? ws "meta").getD 0 ≠ 0) with
+      | some true => (s, "ok same")
+      | some false => (s, "ok differ")
+      | none => (s, "fault")
   else if op == "write" then
     match write NT AA g ((argNat? ws "comment").getD 0 ≠ 0) with
     | some bytes => (s, s!"ok {hx bytes}")
@@ -97,15 +116,15 @@ def step (s : Unit) (line : String) : Unit × String :=
       | some "-" => [L]
       | some cs => (cs.splitOn ",").filterMap String.toNat?
       | none => [L]
-    if cuts.foldl (· + ·) 0 ≠ L || cuts.headD 0 < 3 && (arg? ws "cuts").isSome && arg? ws "cuts" ≠ some "-" then (s, "bad-op") else
+    if cuts.foldl (· + ·) 0 ≠ L || cuts.headD 0 < 2 && (arg? ws "cuts").isSome && arg? ws "cuts" ≠ some "-" then (s, "bad-op") else
     let usingN := (argNat? ws "using").getD 0
     let cfg : Cfg := { usingInit := usingN ≠ 0, minlen := (argInt? ws "minlen").getD 20 }
     let strand := (arg? ws "strand").getD "b"
     let w : Work := {}
     let r : Option Work := do
       if L < 3 then some w else
-      let w ← if strand ≠ "c" then runStrand NT AA g cfg w false d cuts else some w
-      if strand ≠ "w" then
+      let w ← if strand ≠ "c" && strand ≠ "n" then runStrand NT AA g cfg w false d cuts else some w
+      if strand ≠ "w" && strand ≠ "n" then
         -- reverse strand in reading order = reversed complemented codes (C08 `revcomp_spec`: = esl_abc_revcomp)
         let comp := NT.complement.getD []
         let rc := d.reverse.map fun x => comp.getD x 255
